@@ -133,6 +133,13 @@ func randConst(r *RNG) dconst {
 		}
 		bs := make([]byte, n)
 		var ns []uint64
+		if r.Chance(12) { // text with non-ASCII runes, among them the two the Go assembler rewrites in identifiers
+			bs = []byte(Pick(r, []string{"a\u00b7b", "\u00b7", "x\u2215y", "\u2215\u2215", "caf\u00e9", "\u4e2d\u6587", "\u00b7\u2215\u00b7", "pkg\u00b7sym"}))
+			for i := range bs {
+				ns = append(ns, uint64(bs[i]))
+			}
+			return dconst{operand.String(string(bs)), "(CStr " + cNList(ns) + "%N)", "String", bs}
+		}
 		for i := range bs {
 			switch r.Intn(4) {
 			case 0:
